@@ -37,4 +37,4 @@ Deliver, in the directory {wt}/_seed/ :
   demo_path.txt              — one line: the repository-relative path where the demo file must be placed, e.g. buffer/hybridbuffer/zz_seed_demo_test.go
   AGENT_README.md            — what you changed, why it breaks the property, what it needs in order to manifest, and what you ran (demo on original: pass; demo with change: fail; full suite with change: pass)
 
-Before you finish, verify all of it yourself: with the change applied and the demo file removed the full suite passes; with the demo file in place the demo fails; with `git stash`/checkout of the source change (demo in place) the demo passes. Leave the worktree with your change applied and the _seed directory filled. Reply with a five-line summary.""")
+Before you finish, verify all of it yourself: with the change applied and the demo file removed the full suite passes; with the demo file in place the demo fails; with the source change reverted by `git apply -R _seed/patch.diff` (demo in place) the demo passes — re-apply it afterwards. NEVER use `git stash` (the stash is shared with other worktrees of this repository). Leave the worktree with your change applied and the _seed directory filled. Reply with a five-line summary.""")
